@@ -251,6 +251,19 @@ fn structural(ctx: &'static Ctx) {
                 cases.push((li, V::t(&fill_text(len, li)), format!("text({})", len)));
                 cases.push((li, V::t(&crate::refmodel::fill_wide(len, 3)), format!("wide-text({})", len)));
             }
+            // multi-byte characters at every alignment relative to every capacity boundary
+            for base in [60usize, 124, 252] {
+                for width in [2usize, 3, 4] {
+                    for pad in 0..8usize {
+                        for tail in [0usize, 40] {
+                            let mut s = "p".repeat(base + pad);
+                            s.push_str(&crate::refmodel::fill_wide(3 * width, width));
+                            s.push_str(&"t".repeat(tail));
+                            cases.push((li, V::t(&s), format!("aligned-wide-text(base {}, pad {}, width {}, tail {})", base, pad, width, tail)));
+                        }
+                    }
+                }
+            }
             for n in [0usize, 1, 2, 9, 10, 11, 15, 16, 17, 32, 64, 200] {
                 cases.push((li, V::A((0..n).map(|i| crate::refmodel::descriptor(i, 16)).collect()), format!("descriptors({})", n)));
                 cases.push((li, V::A((0..n).map(|i| crate::refmodel::param(-7 - (i as i64 % 3), PUBLIC_KEY)).collect()), format!("params({})", n)));
